@@ -17,7 +17,10 @@ class AddImplicitCastVisitor(Visitor.DefaultVisitor):
 
     def v_ArrayExpression(self, node, ctx=None):
         assert isinstance(node, ast.ArrayExpression)
-        node.GetExpression().AcceptVisitor(self, ctx)
+        # The indexed value and the index are expressions of their own: they
+        # may contain calls, constructors and further element accesses
+        self.v_Generic(node.GetParent(), ctx)
+        self.v_Generic(node.GetExpression(), ctx)
 
         # We allow Integer or UnsignedInteger as the index
         exprType = node.GetExpression().GetType()
@@ -56,6 +59,9 @@ class AddImplicitCastVisitor(Visitor.DefaultVisitor):
         assert node
         assert isinstance(node, ast.ConstructPrimitiveExpression)
 
+        for p in node.GetArguments():
+            self.v_Generic(p, ctx)
+
         # The primitive type of each argument must be the same as the result
         resultType = node.GetType().GetComponentType()
 
@@ -77,6 +83,9 @@ class AddImplicitCastVisitor(Visitor.DefaultVisitor):
 
     def v_CallExpression(self, node, ctx=None):
         assert isinstance(node, ast.CallExpression)
+
+        for arg in node.GetArguments():
+            self.v_Generic(arg, ctx)
 
         # The primitive type of each argument must be the same as the argument type
         argumentTypes = node.function.GetArgumentTypes().values()
